@@ -156,7 +156,7 @@ def check(ctx, src):
                    f"a Lambda is emitted under {at}: {missing} would be lost in a Lambda", R, lamc[0].lineno, witness="statements / type parameters / async are lost in a Lambda",
                    detail="not (annotations or tp or body.stmts or is_async)")
         # annotations: `returns is None` and a test that looks at the five parameter groups (in place, or in a helper it calls)
-        ann = [a for a in pyq.atoms_expanded(lamc[0], fl) if a not in need and str(a) != "returns is None"]
+        ann = [a for a in pyq.atoms_expanded(lamc[0], fl) if a not in need and not (str(a).endswith(" is None") and " " not in str(a)[:-8])]
         texts = []
         for a in ann:
             texts.append(str(flat(a.node)) if hasattr(a, "node") and a.node is not None else str(a))
@@ -167,9 +167,22 @@ def check(ctx, src):
                     for d_ in [n.value for n in ast.walk(fl) if isinstance(n, ast.Assign) and len(n.targets) == 1 and isinstance(n.targets[0], ast.Name) and n.targets[0].id == c.id]:
                         texts.append(str(flat(d_)))
         tt = " ".join(texts)
-        groups = [g for g in ("posonly", "args", "kwonly", "rest", "kwargs") if g not in tt]
-        ret_ok = "returns is None" in at or "returns is not None" in tt
-        ctx.decide("FN-SHAPE", f"{R}|compile_function_lambda|has_annotations", None if not ann and not ret_ok else (ret_ok and not groups),
+        # the five parameter groups are whatever the 5-way unpacking of the parsed lambda list calls them
+        def five(fn_):
+            for n in ast.walk(fn_):
+                if isinstance(n, ast.Assign) and isinstance(n.targets[0], ast.Tuple) and len(n.targets[0].elts) == 5 and all(isinstance(x, ast.Name) for x in n.targets[0].elts):
+                    return [x.id for x in n.targets[0].elts]
+            return None
+        helper_fns = [rm.func(c.func.id) for a in ann for c in (ast.walk(a.node) if getattr(a, "node", None) is not None else []) if isinstance(c, ast.Call) and isinstance(c.func, ast.Name) and rm.func(c.func.id) is not None]
+        names5 = five(fl) or next((five(h) for h in helper_fns if five(h)), None)
+        import re as _re
+        groups = [g for g in (names5 or []) if not _re.search(r"\b" + _re.escape(g) + r"\b", tt)]
+        if names5 is None:
+            ann = []
+        retv = next((n.targets[0].elts[1].id for n in ast.walk(fl) if isinstance(n, ast.Assign) and isinstance(n.targets[0], ast.Tuple) and len(n.targets[0].elts) == 2
+                     and all(isinstance(x, ast.Name) for x in n.targets[0].elts) and isinstance(n.value, ast.Name) and n.value.id in [a_.arg for a_ in fl.args.args]), "returns")
+        ret_ok = f"{retv} is None" in at or f"{retv} is not None" in tt
+        ctx.decide("FN-SHAPE", f"{R}|compile_function_lambda|has_annotations", None if not ann else (ret_ok and not groups),
                    f"the annotation test before emitting a Lambda does not look at {groups or 'the return annotation'}: an annotated parameter of that group is emitted inside a Lambda, where Python drops the annotation",
                    R, lamc[0].lineno, witness="(fn [#^ (f) #* xs] 1) never evaluates (f); hy2py prints an unparsable lambda", detail="all five groups + returns")
     fnn = rm.func("compile_function_node")
